@@ -336,8 +336,4 @@ impl TableObj {
     pub fn entries(&self) -> impl Iterator<Item = &(Value, Value)> {
         self.slots.iter().filter(|(_, v)| !v.is_nil())
     }
-
-    pub fn live_len(&self) -> usize {
-        self.slots.len() - self.dead
-    }
 }
